@@ -183,6 +183,31 @@ pub enum SigSpec {
 pub struct Query {
     pub pairs: Vec<Pair>,
     pub sig: SigSpec,
+    /// how the pair list is handed to the cache: 0 = exact-size iterator over borrowed pairs,
+    /// 1 = iterator of unknown length (size_hint (0, Some(n))), 2 = one-at-a-time generator
+    /// (size_hint (0, None)), 3 = owned keys and owned messages
+    #[serde(default)]
+    pub feed: u8,
+}
+
+/// `BlsCache::aggregate_verify` on the query, handing the list over as `q.feed` says.
+fn cache_verify(cache: &BlsCache, q: &Query) -> bool {
+    let sig = q.signature();
+    let pm = q.pk_msgs();
+    match q.feed % 4 {
+        0 => cache.aggregate_verify(pm.iter().map(|(pk, m)| (pk, m.as_slice())), &sig),
+        1 => cache.aggregate_verify(pm.iter().filter(|_| true).map(|(pk, m)| (pk, m.as_slice())), &sig),
+        2 => {
+            let mut i = 0usize;
+            let it = std::iter::from_fn(|| {
+                let r = pm.get(i).map(|(pk, m)| (pk, m.as_slice()));
+                i += 1;
+                r
+            });
+            cache.aggregate_verify(it, &sig)
+        }
+        _ => cache.aggregate_verify(pm.clone(), &sig),
+    }
 }
 
 #[derive(Serialize, Deserialize, Clone, Debug, PartialEq)]
@@ -285,16 +310,10 @@ enum OpResult {
 fn run_op(cache: &BlsCache, op: &Op) -> OpResult {
     let p = pool();
     match op {
-        Op::Verify(q) => {
-            let sig = q.signature();
-            let pm = q.pk_msgs();
-            OpResult::Verdict(cache.aggregate_verify(pm.iter().map(|(pk, m)| (pk, m.as_slice())), &sig))
-        }
+        Op::Verify(q) => OpResult::Verdict(cache_verify(cache, q)),
         Op::CloneVerify(q) => {
             let snapshot = cache.clone();
-            let sig = q.signature();
-            let pm = q.pk_msgs();
-            OpResult::Verdict(snapshot.aggregate_verify(pm.iter().map(|(pk, m)| (pk, m.as_slice())), &sig))
+            OpResult::Verdict(cache_verify(&snapshot, q))
         }
         Op::Update(pairs) => {
             for (k, m) in pairs {
@@ -314,7 +333,13 @@ fn run_op(cache: &BlsCache, op: &Op) -> OpResult {
             cache.evict(v.iter().map(|(pk, m)| (pk, m.as_slice())));
             OpResult::Unit
         }
-        Op::Len => OpResult::Len(cache.len()),
+        Op::Len => {
+            // is_empty() is one more lock acquisition (a scheduling point); under concurrency its
+            // answer may legitimately be stale by the time len() runs, so it is only compared in
+            // the sequential phases
+            let _ = cache.is_empty();
+            OpResult::Len(cache.len())
+        }
     }
 }
 
@@ -329,11 +354,13 @@ fn op_cost(op: &Op) -> usize {
     match op {
         Op::Verify(q) | Op::CloneVerify(q) => 2 * q.pairs.len() + 4,
         Op::Update(p) | Op::Evict(p) => p.len() + 3,
-        Op::Len => 3,
+        Op::Len => 5,
     }
 }
 
 pub struct C15;
+
+const DEFAULT_CAPACITY: usize = 50_000;
 
 fn viol(sig: String, step: usize, detail: String) -> Violation {
     Violation { signature: sig, step, detail }
@@ -366,7 +393,13 @@ impl C15 {
         let mut d = Digest::new();
         let capacity = case.capacity.max(1) as usize;
         d.u64(capacity as u64);
-        let cache = Arc::new(BlsCache::new(NonZeroUsize::new(capacity).unwrap()));
+        // 50 000 stands for "whatever BlsCache::default() gives", which is documented as 50 000
+        let cache = if capacity == DEFAULT_CAPACITY {
+            c.inc("probe.default_capacity_cache");
+            Arc::new(BlsCache::default())
+        } else {
+            Arc::new(BlsCache::new(NonZeroUsize::new(capacity).unwrap()))
+        };
         let out = |violation: Option<Violation>, d: &Digest, nontrivial: Option<u64>, resolved: Option<Case>| RunOutput {
             violation,
             digest: d.finish(),
@@ -394,10 +427,10 @@ impl C15 {
         if !case.prefix.is_empty() {
             let script = case.prefix.clone();
             let pc = cache.clone();
-            let body: Box<dyn FnOnce() -> Vec<(OpResult, usize)> + Send + 'static> = Box::new(move || {
-                script.iter().map(|op| { let r = run_op(&pc, op); (r, pc.len()) }).collect()
+            let body: Box<dyn FnOnce() -> Vec<(OpResult, usize, bool)> + Send + 'static> = Box::new(move || {
+                script.iter().map(|op| { let r = run_op(&pc, op); (r, pc.len(), pc.is_empty()) }).collect()
             });
-            let budget = 40 + 4 * case.prefix.iter().map(op_cost).sum::<usize>();
+            let budget = 60 + 6 * case.prefix.iter().map(op_cost).sum::<usize>();
             let sim = sched::run(vec![body], &Strategy::Explicit { decisions: vec![] }, budget, || None);
             let rs = match sim.outcome {
                 Outcome::Done(mut r) => r.remove(0),
@@ -409,8 +442,11 @@ impl C15 {
                 Ok(r) => r,
                 Err(e) => return out(Some(viol("panic:prefix_op".into(), 0, e)), &d, None, None),
             };
-            for (i, (r, n)) in rs.iter().enumerate() {
+            for (i, (r, n, empty)) in rs.iter().enumerate() {
                 d.str(&format!("{r:?}"));
+                if *empty != (*n == 0) {
+                    return out(Some(viol("len_is_empty_disagree:sequential".into(), i, format!("len() = {n} but is_empty() = {empty} with no other thread running"))), &d, None, None);
+                }
                 if let Some((sig, detail)) = check_result(&case.prefix[i], r, capacity, "cache_sequential") {
                     return out(Some(viol(sig, i, detail)), &d, None, None);
                 }
@@ -520,6 +556,9 @@ impl C15 {
             let body: Box<dyn FnOnce() -> (usize, Option<(String, String)>, u64) + Send + 'static> = Box::new(move || {
                 let p = pool();
                 let n = sc.len();
+                if sc.is_empty() != (n == 0) {
+                    return (n, Some(("len_is_empty_disagree:sweep".to_string(), format!("len() = {n} but is_empty() disagrees with no other thread running"))), 0);
+                }
                 let mut count = 0u64;
                 for (i, (k, m)) in keys.iter().enumerate() {
                     let (k, m) = (*k, *m);
@@ -585,7 +624,12 @@ impl C15 {
                     }
                 };
                 c.inc("pure_path_queries");
-                let got = aggregate_verify(&sig, pm.iter().map(|(pk, m)| (pk, m.as_slice())));
+                // the same hand-over forms as for the cache
+                let got = match q.feed % 4 {
+                    0 => aggregate_verify(&sig, pm.iter().map(|(pk, m)| (pk, m.as_slice()))),
+                    1 | 2 => aggregate_verify(&sig, pm.iter().filter(|_| true).map(|(pk, m)| (pk, m.as_slice()))),
+                    _ => aggregate_verify(&sig, pm.clone()),
+                };
                 if let Some(v) = mism("aggregate_verify", got) {
                     return out(Some(v), &d, None, Some(resolved));
                 }
@@ -598,7 +642,7 @@ impl C15 {
                 if !q.has_inf() {
                     // verification from precomputed pairings is only required to agree without infinity keys
                     let gts: Vec<&GTElement> = q.pairs.iter().map(|(k, m)| &p.gts[*k as usize % NKEYS][*m as usize % NMSGS]).collect();
-                    let got = aggregate_verify_gt(&sig, gts);
+                    let got = if q.feed % 2 == 1 { aggregate_verify_gt(&sig, gts.iter().copied().filter(|_| true)) } else { aggregate_verify_gt(&sig, gts) };
                     if let Some(v) = mism("aggregate_verify_gt", got) {
                         return out(Some(v), &d, None, Some(resolved));
                     }
@@ -710,7 +754,8 @@ pub fn gen_query(rng: &mut Rng, keyspace: usize) -> Query {
         15 => SigSpec::AggPlusTorsion(honest, rng.below(3) as u8),
         _ => SigSpec::Agg(honest),
     };
-    Query { pairs, sig }
+    let feed = if rng.chance(1, 2) { 0 } else { rng.range(1, 3) as u8 };
+    Query { pairs, sig, feed }
 }
 
 fn gen_op(rng: &mut Rng, keyspace: usize, w: &[u64; 5]) -> Op {
@@ -728,7 +773,8 @@ fn gen_op(rng: &mut Rng, keyspace: usize, w: &[u64; 5]) -> Op {
             Op::Update(gen_pairs(rng, keyspace, n, false))
         }
         2 => {
-            let n = rng.range(1, 3) as usize;
+            // mostly short; sometimes a long list, which repeats pairs on the small key spaces
+            let n = if rng.chance(1, 5) { rng.range(4, 9) as usize } else { rng.range(1, 3) as usize };
             Op::Evict(gen_pairs(rng, keyspace, n, true))
         }
         3 => Op::Len,
@@ -833,9 +879,9 @@ impl Engine for C15 {
 
     fn generate(&self, rng: &mut Rng, tier: Tier) -> Case {
         let deep = tier == Tier::Thorough && rng.chance(1, 4);
-        let capacity = if deep { *rng.pick(&[1u32, 2, 3, 4, 6, 8, 16]) } else { *rng.pick(&[1u32, 1, 2, 2, 3, 5, 7, 64, 300]) };
+        let capacity = if deep { *rng.pick(&[1u32, 2, 3, 4, 6, 8, 16]) } else if rng.chance(1, 40) { DEFAULT_CAPACITY as u32 } else { *rng.pick(&[1u32, 1, 2, 2, 3, 5, 7, 64, 300]) };
         let keyspace = *rng.pick(&[2usize, 3, NKEYS]);
-        let nthreads = if deep { rng.range(3, 6) as usize } else { rng.range(2, 4) as usize };
+        let nthreads = if deep && rng.chance(1, 8) { rng.range(7, 8) as usize } else if deep { rng.range(3, 6) as usize } else { rng.range(2, 4) as usize };
         // swarm: per-run op weights (verify, update, evict, len, clone-verify)
         let mut w = [4u64, 0, 0, 0, 0];
         for x in w.iter_mut().skip(1) {
@@ -873,7 +919,7 @@ impl Engine for C15 {
                 }
                 _ => {}
             }
-            let q = Query { pairs, sig: SigSpec::Agg(signed) };
+            let q = Query { pairs, sig: SigSpec::Agg(signed), feed: rng.below(4) as u8 };
             prefix.push(Op::Verify(q.clone()));
             let t = rng.usize_below(threads.len());
             threads[t].insert(0, Op::Verify(q.clone()));
